@@ -7,22 +7,25 @@ class C04(Spec):
     harness = "h_c04"
     race = True
     lean_deps = ("C01", "C02", "C03")
-    required_theorems = ("C04.uncommitted_noop", "C04.rollback_noop", "C04.never_committed_noop",
-                         "C04.commit_exact_partial", "C04.commit_exact_full_false", "C04.memSet_empty_drops_pending",
-                         "C04.commit_marker_writes_nothing", "C04.forks_independent", "C04.ops_commute")
-    partial = ("C04.commit_exact_partial",)
-    refuted = ("C04.commit_exact_full_false",)
+    required_theorems = ("C04.uncommitted_noop", "C04.rollback_noop", "C04.never_committed_noop", "C04.commit_exact",
+                         "C04.commit_exact_content", "C04.memSet_empty_keeps_pending", "C04.commit_exact_old_false",
+                         "C04.commit_marker_writes_nothing", "C04.second_commit_notfound", "C04.forks_independent",
+                         "C04.ops_commute")
+    partial = ("C04.commit_exact_content",)
     level_text = ("Lean 4 theorems over the store LTS (state = configuration, record map, pending-tree map, node cache; labels "
                   "Set/MemSet/Commit/Rollback/Get/restart; transition functions = the executable model of mavl.go used by "
                   "C01/C02): MemSet and Rollback, and any interleaving of MemSet/Rollback/Get/restart requests, leave the record "
                   "map untouched and the restarted store identical (uncommitted_noop, rollback_noop, never_committed_noop); "
-                  "Commit of a pending tree still stored under its root makes exactly that tree loadable at the root and keeps "
-                  "every earlier record (commit_exact_partial, with C01's `Consistent`), hence another branch's committed root "
+                  "a pending update stays pending under any sequence of MemSet requests — empty ones on top of it included, the "
+                  "LoadOrStore of /repo e6adcc5 is mirrored — and Commit, when it answers ok, has written the record of its root "
+                  "(commit_exact, full); the committed tree is loadable exactly as it was pending and every earlier record is kept "
+                  "(commit_exact_content, with C01's `Consistent`), hence another branch's committed root "
                   "loads to the same tree (forks_independent); MemSet replies depend only on configuration and records, so any "
-                  "two interleavings of non-writing requests give the same replies (ops_commute). Refuted: the unconditional "
-                  "commit statement (commit_exact_full_false; mechanism for every state: memSet_empty_drops_pending, "
-                  "commit_marker_writes_nothing) — replayed on the real code: KNOWN-FINDING "
-                  "C04|Store.Commit|committed-value-unreadable-after-empty-MemSet-on-pending-parent. "
+                  "two interleavings of non-writing requests give the same replies (ops_commute). commit_exact_old_false keeps the "
+                  "S-C04 witness as a fact about the store before e6adcc5 (memSetOld); the harness still issues empty MemSets on "
+                  "pending parents and would report C04|Store.Commit|committed-value-unreadable-after-empty-MemSet-on-pending-parent. "
+                  "second_commit_notfound: the second Commit of one root (empty block on a block whose state was pending) answers "
+                  "ErrHashNotFound and changes nothing — modelled and compared, not a predicate (the content stays readable). "
                   "Tie: generated interleavings (forks at the same height, empty updates, updates on pending parents, double "
                   "commits, unknown roots, restarts) against mavl.Store, every reply and every read replayed byte-exactly by the "
                   "Lean driver; bursts of concurrent requests through queue + BaseStore.processMessage (built with -race), replies "
